@@ -19,7 +19,9 @@ theorem structural_fixpoint (dir : String) (bs : List DBlock) (f : List BTree)
     (hitems : Tok.itemsOkL bs = true) (hlists : Tok.listsNonEmptyL bs = true)
     (hrefs : refsRoundTripL dir f = true) :
     ∃ f', Sections.forest dir (asDocs (blocksOf dir f)) = .ok f' ∧ blocksOf dir f' = blocksOf dir f := by
-  sorry
+  -- `hlists` is not needed: the builder never returns a list node without children
+  have _ := hlists
+  exact Fixpoint.fixpoint dir bs f hok hitems hrefs
 
 /-- hence the tight/loose decision of every list is the same the second time (it is a function of
 the rendered blocks) -/
@@ -29,34 +31,42 @@ theorem sparse_stable (dir : String) (bs : List DBlock) (f f' : List BTree)
     (hrefs : refsRoundTripL dir f = true)
     (hok' : Sections.forest dir (asDocs (blocksOf dir f)) = .ok f') (ext : String) :
     Render.blocksSparse ext (blocksOf dir f') = Render.blocksSparse ext (blocksOf dir f) := by
-  sorry
+  obtain ⟨f'', h1, h2⟩ := structural_fixpoint dir bs f hok hitems hlists hrefs
+  rw [hok'] at h1
+  cases h1
+  rw [h2]
 
 /-- refreshing link titles twice is refreshing them once -/
 theorem normalize_idem (title : String → Option String) (xs : Inlines) :
-    Inline.normalizeL title (Inline.normalizeL title xs) = Inline.normalizeL title xs := by
-  sorry
+    Inline.normalizeL title (Inline.normalizeL title xs) = Inline.normalizeL title xs :=
+  Fixpoint.normalizeL_idem title xs
 
 /-- **ordered-list marker arithmetic, all n**: the first line of an item and its continuation
 lines are indented by the same number of characters (the `> 9` case distinction keeps content at
 column 4 up to 99 and at marker width + 1 beyond) -/
 theorem ordered_indent (n : Nat) (l : String) :
     (Render.numPrefix n ++ " " ++ l).length = (Render.rep ' ' (Render.numPrefix n).length ++ " " ++ l).length := by
-  sorry
+  simp [String.length_append, Fixpoint.rep_length]
 
 /-- the number marker is the decimal numeral, a dot, and one blank up to 9 -/
 theorem numPrefix_shape (n : Nat) :
     Render.numPrefix n = toString n ++ "." ++ (if n > 9 then "" else " ") := by
-  sorry
+  rfl
 
 /-- numbering restarts at 1 and is consecutive, whatever the source numbers were -/
 theorem numbered_consecutive (k : Nat) (ss : List String) :
     Render.numbered k ss = (List.range ss.length).zipWith (fun i s => Render.leftPadAndPrefixNum s (k + i)) ss := by
-  sorry
+  induction ss generalizing k with
+  | nil => simp [Render.numbered]
+  | cons s ss ih =>
+    rw [Render.numbered, ih, List.length_cons, List.range_succ_eq_map, List.zipWith_cons_cons,
+      List.zipWith_map_left]
+    simp [Nat.add_assoc, Nat.add_comm 1]
 
 /-- front-matter is a fixpoint of the wrapper: re-wrapping the same meta gives the same text -/
 theorem frontmatter_fixpoint (m body : String) :
     Render.withMeta (some m) body = "---\n" ++ m ++ "---\n\n" ++ body := by
-  sorry
+  rfl
 
 /-- non-vacuity: levels 3,1 with a nested list whose first item is empty and a leading-list item —
 rendered blocks, re-read and re-rendered, are identical (evaluated by the kernel) -/
